@@ -1,8 +1,11 @@
 package drivers
 
 import (
+	"bytes"
 	"encoding/json"
+	"errors"
 	"fmt"
+	"io"
 	"os"
 	"strconv"
 	"strings"
@@ -74,10 +77,30 @@ func (c *c08Cast) probeAll(w *CW) string {
 type c08Event struct {
 	Name string
 	OK   int // >0: successful refresh to this version
+	// BreaksOffFirst: the first download attempt of this refresh breaks off in the middle of the body (the loader
+	// tries again and gets all of it)
+	BreaksOffFirst bool
 	// failure description
 	Serve func(c *c08Cast, w *CW)
 	Fault *faultPlan
 }
+
+// brokenBody delivers its data and then fails like a connection which was reset.
+type brokenBody struct {
+	data []byte
+	off  int
+}
+
+func (b *brokenBody) Read(p []byte) (int, error) {
+	if b.off >= len(b.data) {
+		return 0, errors.New("read tcp: connection reset by peer (scripted)")
+	}
+	n := copy(p, b.data[b.off:])
+	b.off += n
+	return n, nil
+}
+
+func (b *brokenBody) Close() error { return nil }
 
 func c08Events(c *c08Cast) []c08Event {
 	v2 := c.vers[2]
@@ -89,6 +112,7 @@ func c08Events(c *c08Cast) []c08Event {
 	evs := []c08Event{
 		{Name: "refresh-ok(v2)", OK: 2},
 		{Name: "refresh-ok(v3)", OK: 3},
+		{Name: "refresh-ok(v3)-after-an-attempt-which-broke-off", OK: 3, BreaksOffFirst: true},
 		{Name: "fail:refused", Serve: func(c *c08Cast, w *CW) { w.Net.Down(urlA) }},
 		{Name: "fail:http-error-page", Serve: func(c *c08Cast, w *CW) {
 			w.Net.Routes[urlA] = &world.Behaviour{Label: "404", Status: 404, Body: []byte("<html><body>404 not found</body></html>")}
@@ -180,6 +204,17 @@ func c08RunHistory(c *c08Cast, evs []c08Event, disk bool, variant c08Variant, hi
 			*plan = faultPlan{}
 			if ev.OK > 0 {
 				w.Net.Serve(urlA, fmt.Sprintf("v%d", ev.OK), c.doc(ev.OK, variant.Bare))
+				if ev.BreaksOffFirst {
+					doc := c.doc(ev.OK, variant.Bare)
+					attempt := 0
+					w.Net.Routes[urlA] = &world.Behaviour{Label: "breaks-off-once", Stream: func() io.ReadCloser {
+						attempt++
+						if attempt == 1 {
+							return &brokenBody{data: doc[:len(doc)/2]}
+						}
+						return io.NopCloser(bytes.NewReader(doc))
+					}}
+				}
 			} else {
 				ev.Serve(c, w)
 				if ev.Fault != nil {
@@ -504,10 +539,10 @@ func c08Mirror(chk *fw.Check, c *c08Cast) (n int) {
 		probes = append(probes, world.Leaf(c.p.CA, pr.Cert.SerialNumber, []string{url1, url2}, nil))
 	}
 	for _, disk := range []bool{false, true} {
-		for _, bg := range []bool{false, true} {
+		for _, bgv := range []int{0, 1, 2, 3} {
 			n++
-			disk, bg := disk, bg
-			label := fmt.Sprintf("two-distribution-points fetch=%s %s", map[bool]string{false: "actively", true: "background"}[bg], be(disk))
+			disk, bg, firstDownAtFirstLoad := disk, bgv%2 == 1, bgv >= 2
+			label := fmt.Sprintf("two-distribution-points fetch=%s %s first-point-down-at-the-first-load=%v", map[bool]string{false: "actively", true: "background"}[bg], be(disk), firstDownAtFirstLoad)
 			res := seqWorld(func() {
 				w := NewCW(CWOpt{Disk: disk, SigMode: config.SignatureValidationModeVerify, Background: bg})
 				defer os.RemoveAll(w.Dir)
@@ -530,6 +565,10 @@ func c08Mirror(chk *fw.Check, c *c08Cast) (n int) {
 				}
 				w.Net.Serve(url1, "v1", c.vers[1])
 				w.Net.Serve(url2, "v1", c.vers[1])
+				if firstDownAtFirstLoad {
+					// the outage of the first point falls on the very first load: the list comes from the mirror
+					w.Net.Down(url1)
+				}
 				w.Lookup(probes[0], c.chain(probes[0]))
 				vsched.Drain()
 				if !expect("first-load", 1) {
